@@ -10,7 +10,7 @@ RULE = ('C01 workload with mixed recipes (1-3 rules over .*/substring/prefix reg
         'and every operand actually read/written is checked for dtype, parameters and (unselected ops) constant bytes; '
         'inserted QUANTIZE/DEQUANTIZE ops are checked against their neighbours.  A unit is one returned (model, recipe) pair; '
         'distinct by (graph structure, recipe); non-trivial iff at least two different modes (incl. float) are expected in it')
-ASSUMPTIONS = ["the library's support predicate is taken as given (C13 checks it against the runtime)",
+ASSUMPTIONS = ['"supports" is read from the declared JSON policy by an independent unroller (vf/oracle/policy.py); C13 checks that it agrees with the library on the whole lattice',
                'regexes restricted to forms on which every scope encoding agrees (regex semantics is C10/C11)',
                'cases whose skeleton is already broken are attributed to C02, not C03',
                'a graph input nobody consumes is unconstrained; a runtime weight operand is float under weight-only/dynamic-range']
@@ -50,7 +50,7 @@ def check_pair(ctx, spec, src, run, acc):
   if [e for e in errs if not e[0].startswith('sig_')] or maps is None or any(m is None for m in maps):
     ctx.count('skeleton_broken_left_to_C02')
     return None
-  ref = recipes.reference_for(acc)
+  ref = recipes.reference_for(acc, declared=True)
   modes_seen = set()
   detail_base = {'rules': acc, 'ops': common.describe_model(spec.content, src)}
 
